@@ -100,6 +100,12 @@ let () =
       count (Printf.sprintf "%s_nv_%c" fmt nv);
       count (Printf.sprintf "%s_v_%c" fmt v);
       note_case (Digest.string (fmt ^ hex)) (nv = 'o' || (cls <> "random" && cls <> "soup"));
+      (* the concurrent phase: one line per format; only death and panic are judged *)
+      if cls = "concurrent" then begin
+        count ("concurrent_" ^ fmt ^ "_" ^ String.make 1 nv);
+        if nv = 'd' then fail id "SPEC" "process_death" (trunc (Printf.sprintf "fmt=%s CONCURRENT %s" fmt msg));
+        if nv = 'p' then fail id "SPEC" "panic" (trunc (Printf.sprintf "fmt=%s CONCURRENT %s" fmt msg))
+      end else begin
       let bound calls = calls * k_bound * len + slack in
       let short = if len <= 40 then hex else String.sub hex 0 80 ^ "..." in
       (* ---- SPEC *)
@@ -173,7 +179,7 @@ let () =
           fail id "CORR" "alloc_lower" (Printf.sprintf "model counts %d count-sized bytes, implementation allocated only %d input=%s" ma nv_alloc short);
         if ma > 0 then count "model_alloc_nonzero";
         (* Scan: the model has no validator; Go's Scan = model scan and Validate *)
-        if len <= 1024 && String.length adapt = 10 && v <> 'p' && valid <> 'p' then
+        if len <= 1024 && (nv = 'o' || !cases land 7 = 0) && String.length adapt = 10 && v <> 'p' && valid <> 'p' then
           Array.iteri (fun i t ->
               let m_ok = (match c08_wkb_scan t bs with Ok _ -> true | _ -> false) in
               let want = if m_ok && valid = '1' then 'o' else 'e' in
@@ -215,6 +221,7 @@ let () =
         Printf.printf "SAMPLE\t%s\t%s/%s\tinput=%s\tnv=%c(%dB) v=%c(%dB) valid=%c adapters=%s reenc=%s redec=%s\n"
           id fmt cls hex nv nv_alloc v v_alloc valid adapt reenc redec end
       ;
+      end;
       if slow_dbg && Sys.time () -. t0 > 0.2 then Printf.eprintf "slow %s %s/%s len=%d %.2fs\n%!" id fmt cls len (Sys.time () -. t0)
       end);
   finish ()
